@@ -61,6 +61,9 @@ pub struct Ctx {
     pub entered_x: AtomicBool,
     pub entered_y: AtomicBool,
     pub hold_ms: AtomicUsize,
+    /// C15: when non-zero every system stays inside `run` until the gate is opened, at most this many milliseconds
+    pub gate_ms: AtomicUsize,
+    pub gate_open: AtomicBool,
 }
 
 pub const NONE: usize = usize::MAX;
@@ -75,6 +78,8 @@ impl Ctx {
             entered_x: AtomicBool::new(false),
             entered_y: AtomicBool::new(false),
             hold_ms: AtomicUsize::new(250),
+            gate_ms: AtomicUsize::new(0),
+            gate_open: AtomicBool::new(false),
         })
     }
     pub fn ev(&self, k: EvK, uid: usize) {
@@ -84,7 +89,14 @@ impl Ctx {
         std::mem::take(&mut *self.log.lock().unwrap())
     }
     /// both members of the rendezvous pair stay inside `run` until the other one has entered (or the hold expires)
-    fn hold(&self, uid: usize) {
+    pub fn hold(&self, uid: usize) {
+        let g = self.gate_ms.load(Ordering::SeqCst);
+        if g > 0 {
+            let end = Instant::now() + Duration::from_millis(g as u64);
+            while !self.gate_open.load(Ordering::SeqCst) && Instant::now() < end {
+                std::thread::yield_now();
+            }
+        }
         let (x, y) = (self.rv_x.load(Ordering::SeqCst), self.rv_y.load(Ordering::SeqCst));
         let (mine, other) = if uid == x {
             (&self.entered_x, &self.entered_y)
@@ -131,6 +143,12 @@ pub struct LogSys {
     acc: DynAcc,
     rt: u8,
     ctx: Arc<Ctx>,
+}
+
+impl LogSys {
+    pub fn new(uid: usize, reads: Vec<ResourceId>, writes: Vec<ResourceId>, rt: u8, ctx: Arc<Ctx>) -> LogSys {
+        LogSys { uid, acc: DynAcc { reads, writes }, rt, ctx }
+    }
 }
 
 fn rt_of(rt: u8) -> RunningTime {
